@@ -220,3 +220,12 @@ def _(u):
         return u.forall((B, T), lambda b, t: AND(a.at(b, t) >= 0, a.at(b, t) <= N))
 
     rowlocal(u, "reward", mk_in, lambda u, ins: u.run(F, "OPEnv._get_reward", ins["td"], ins["actions"], selfobj=env), requires=req)
+
+
+@unit("op.reward.padding", file=F, func="OPEnv._get_reward", props=("C04", "C03"))
+def _(u):
+    from .envlib import reward_pad_invariant
+
+    N = u.dim("N")
+    reward_pad_invariant(u, F, "OPEnv._get_reward", "OPEnv", lambda u, B: u.td(B, prize=((B, N + 1), "f")), N + 1,
+                         extra_requires=lambda u, td, B: u.forall((B,), lambda b: td["prize"].at(b, 0) == 0))
